@@ -117,6 +117,7 @@ type Frame struct {
 	ord      map[ssa.Instruction]int
 	ordName  map[ssa.Instruction]string
 	locals   []localCell
+	escaped  map[*ssa.Alloc]bool
 }
 
 // anchored checks the "//@ at <kind> <name>#n assert" clauses that name the
@@ -176,6 +177,7 @@ type Enc struct {
 	oblCount          map[string]int
 	specFunsDeclared  map[string]bool
 	topNames          map[string]CE
+	allocLimit        Term
 }
 
 func newEnc(l *Loaded, cs *Contracts, fn *ssa.Function, con *Contract) *Enc {
@@ -666,6 +668,7 @@ func (e *Enc) encodeBody(fr *Frame, st *State) ([]Val, *State, Term) {
 			if _, ok := ins.(*ssa.Phi); ok {
 				continue
 			}
+			fr.markEscapes(ins)
 			switch t := ins.(type) {
 			case *ssa.If:
 				c := e.val(fr, t.Cond).T
